@@ -41,7 +41,7 @@ INPUTS = {"T": T, "P": P, "S": S, "PT": PT, "SEG": SEG}
 
 
 VARIANTS = {
-    "T": [dict(), dict(c=3, h=24, w=16), dict(c=1, h=16, w=16), dict(c=3, h=32, w=32), dict(c=3, h=8, w=20)],
+    "T": [dict(), dict(c=3, h=24, w=16), dict(c=1, h=16, w=16), dict(c=3, h=32, w=32), dict(c=3, h=8, w=20), dict(c=3, h=160, w=144)],
     "P": [dict(), dict(h=24, w=40), dict(mode="L"), dict(h=48, w=64), dict(h=9, w=33)],
     "S": [dict(), dict()],
     "PT": [dict()],
